@@ -555,6 +555,24 @@ theorem exclude_same_partial (name : String) (fuel : Nat) (m : M) (hm : GAll (Go
 
 end
 
+/-! ### with the bridge facts proved (C02.bridge): no assumption beyond `EnvTotal` and good atoms -/
+
+theorem only_final (env : Env) (he : EnvTotal env) (names : List String) (fuel : Nat) (m : M) (hm : GAll (Good env) m) :
+    (depth m ≤ fuel → GAll (NameIn (· ∈ names)) (only fuel m names)) ∧
+    (sem env m = true → sem env (only fuel m names) = true) ∧
+    (GAll (NameIn (· ∈ names)) m → sem env (only fuel m names) = sem env m) :=
+  let b := C02.bridge env he
+  ⟨only_mentions env he b.1 b.2 names fuel m hm, only_implied env he b.1 b.2 names fuel m hm,
+   only_same env he b.1 b.2 names fuel m hm⟩
+
+theorem exclude_final (env : Env) (he : EnvTotal env) (name : String) (fuel : Nat) (m : M) (hm : GAll (Good env) m) :
+    (depth m ≤ fuel → GAll (NameIn (· ≠ name)) (exclude fuel m name)) ∧
+    (GAll (NameIn (· ≠ name)) m → sem env m = true → sem env (exclude fuel m name) = true) ∧
+    (GAll (NameIn (· ≠ name)) m → NoVanish fuel m name → sem env (exclude fuel m name) = sem env m) :=
+  let b := C02.bridge env he
+  ⟨exclude_mentions env he b.1 b.2 name fuel m hm, exclude_implied env he b.1 b.2 name fuel m hm,
+   exclude_same_partial env he b.1 b.2 name fuel m hm⟩
+
 /-- without `NoVanish` the statement is false of the code's algorithm: on the (unreachable,
     not-in-normal-form) marker `os_name == "a" and (<empty> or <empty>)` the conjunct that
     re-normalises to `EmptyMarker` is dropped.  Replayed on the implementation by the harness
